@@ -159,9 +159,7 @@ func (f *futureProcess[M]) DeliveryUserMessage(receiver, sender, forward *prc.Pr
 	case error:
 		f.Close(m)
 	default:
-		verifhook.At("fut.msg")
-		f.message = message
-		f.Close(nil)
+		f.complete(message, nil)
 	}
 }
 
@@ -178,11 +176,17 @@ func (f *futureProcess[M]) Terminate(source *prc.ProcessId) {
 }
 
 func (f *futureProcess[M]) Close(reason error) {
+	f.complete(nil, reason)
+}
+
+// complete 以消息或错误完成 Future：只有赢得 CAS 的调用者才会写入结果，因此结果一经产生便不再改变
+func (f *futureProcess[M]) complete(message prc.Message, reason error) {
 	verifhook.At("fut.cas")
 	if !f.closed.CompareAndSwap(false, true) {
 		return
 	}
 	verifhook.At("fut.err")
+	f.message = message
 	f.err = reason
 	verifhook.At("fut.done")
 	close(f.done)
